@@ -110,3 +110,16 @@ TRELLIS = [
 @register("TranslTrellis")  # noqa: F821
 def gen_transl_trellis():
     return _py2lean_arr().translate_unit("Trellis", TRELLIS, {}, header=HEADER)  # noqa: F821
+
+
+_BB = "okdmr.dmrlib.utils.bits_bytes"
+BITSBYTES = [
+    (_BB, "byteswap_bytearray", None),
+    (_BB, "byteswap_bytes", None),
+    (_BB, "half_byte_to_bytes", None),
+]
+
+
+@register("TranslBitsBytes")  # noqa: F821
+def gen_transl_bitsbytes():
+    return _py2lean_arr().translate_unit("BitsBytes", BITSBYTES, {}, header=HEADER)  # noqa: F821
